@@ -5,6 +5,7 @@ package main
 // unconstrained result (A-lib-pure).
 
 import (
+	"fmt"
 	"go/types"
 	"strings"
 
@@ -62,6 +63,10 @@ func (x *Exec) libModel(fr *Frame, st *State, reach string, callee *ssa.Function
 		return TupleV{}, true
 	case "sort.Search":
 		return x.sortSearch(fr, st, reach, args, ins)
+	case "sort.Sort":
+		if x.sortSort(fr, st, reach, ins) {
+			return TupleV{}, true
+		}
 	}
 	if strings.HasPrefix(key, "time.") || strings.HasPrefix(key, "fmt.") || strings.HasPrefix(key, "strings.") || strings.HasPrefix(key, "strconv.") {
 		return x.havocValTyped(reach, rt, "lib"), true
@@ -107,6 +112,53 @@ func (x *Exec) sortSearch(fr *Frame, st *State, reach string, args []Val, ins ss
 	x.assume(g2, not(p2))
 	x.trustedUsed["sort.Search (least index with predicate true; monotone predicate assumed: A-lib)"] = true
 	return I(r), true
+}
+
+// sortSort models sort.Sort(S(s)) for a slice s of an integer type whose sort.Interface implementation is
+// the ascending one (Less(i,j) = s[i] < s[j]; the Less methods of the two types used by bbolt, freelist.txIDx
+// and common.Pgids, are under contract themselves): afterwards the segment is an ascending permutation of
+// what it was (explicit permutation functions), everything else is unchanged. Trusted: A-lib.
+func (x *Exec) sortSort(fr *Frame, st *State, reach string, ins ssa.Instruction) bool {
+	ci, ok := ins.(ssa.CallInstruction)
+	if !ok {
+		return false
+	}
+	mi, ok := ci.Common().Args[0].(*ssa.MakeInterface)
+	if !ok {
+		return false
+	}
+	tk := typeKey(mi.X.Type())
+	if tk != "freelist.txIDx" && tk != "common.Pgids" {
+		return false
+	}
+	sl, ok := mi.X.Type().Underlying().(*types.Slice)
+	if !ok || kindOf(sl.Elem()) != KInt {
+		return false
+	}
+	sv, ok := x.value(fr, mi.X).(SliceV)
+	if !ok {
+		return false
+	}
+	name := "E$" + typeKey(sl.Elem())
+	h := x.heap(st, name, arr2Sort("Int"))
+	oldRow := x.define("sortold", "(Array Int Int)", sx("select", h, sv.Arr))
+	row := x.fresh("sortrow", "(Array Int Int)")
+	el := x.elFn("Int")
+	x.n++
+	pi, inv := fmt.Sprintf("sortperm!%d", x.n), fmt.Sprintf("sortinv!%d", x.n)
+	x.declareFun(pi, "(Int) Int")
+	x.declareFun(inv, "(Int) Int")
+	rng := func(v string) string { return sx("and", sx("<=", "0", v), sx("<", v, sv.Len)) }
+	// outside the segment: unchanged
+	x.emit(fmt.Sprintf("(assert (forall ((j Int)) (! (=> (or (< j %s) (>= j (+ %s %s))) (= (select %s j) (select %s j))) :pattern ((select %s j)))))", sv.Off, sv.Off, sv.Len, row, oldRow, row))
+	// ascending
+	x.emit(fmt.Sprintf("(assert (forall ((i Int) (j Int)) (! (=> (and (<= 0 i) (<= i j) (< j %s)) (<= (%s %s %s i) (%s %s %s j))) :pattern ((%s %s %s i) (%s %s %s j)))))", sv.Len, el, row, sv.Off, el, row, sv.Off, el, row, sv.Off, el, row, sv.Off))
+	// permutation: new[i] = old[perm(i)], old[j] = new[inv(j)], perm and inv are mutually inverse on the range
+	x.emit(fmt.Sprintf("(assert (forall ((i Int)) (! (=> %s (and %s (= (%s %s %s i) (%s %s %s (%s i))) (= (%s (%s i)) i))) :pattern ((%s %s %s i)) :pattern ((%s i)))))", rng("i"), rng(sx(pi, "i")), el, row, sv.Off, el, oldRow, sv.Off, pi, inv, pi, el, row, sv.Off, pi))
+	x.emit(fmt.Sprintf("(assert (forall ((j Int)) (! (=> %s (and %s (= (%s %s %s (%s j)) (%s %s %s j)) (= (%s (%s j)) j))) :pattern ((%s %s %s j)) :pattern ((%s j)))))", rng("j"), rng(sx(inv, "j")), el, row, sv.Off, inv, el, oldRow, sv.Off, pi, inv, el, oldRow, sv.Off, inv))
+	x.setHeap(st, name, arr2Sort("Int"), sx("store", h, sv.Arr, row))
+	x.trustedUsed["sort.Sort on "+tk+" = ascending permutation of the slice (A-lib; the type's Less method is under contract)"] = true
+	return true
 }
 
 // libEffects: write effects of modelled library functions
